@@ -43,6 +43,16 @@ impl RuleSet {
             });
         }
 
+        #[cfg(reval_verif)]
+        for outcome in results.iter() {
+            crate::verif::record_eval(
+                outcome.rule.expr(),
+                &self.symbols.0.iter().collect::<Vec<_>>(),
+                facts,
+                &outcome.value,
+            );
+        }
+
         Ok(results)
     }
 
